@@ -160,6 +160,11 @@ def c06_boundary():
     for a in ([], ['i64'], ['i64', 'd'], ['i32', 'i64', 'u8'], ['d', 'f']):
         out.append(dict(args=a, nfixed=len(a), vararg=False, res=['i64'], leaf=True))
     out.append(dict(args=['rblk:40', 'd', 'blk:24'], nfixed=3, vararg=False, res=['d']))
+    # far beyond the register files (and beyond the interpreter's initial 64-element argument arrays)
+    out.append(dict(args=[i64] * 70, nfixed=70, vararg=False, res=['i64']))
+    out.append(dict(args=[i64, 'd'] * 45, nfixed=90, vararg=False, res=['d', 'i64']))
+    out.append(dict(args=['u8', 'f', 'i16', 'd', 'u32', 'ld'] * 11, nfixed=66, vararg=False, res=['ld']))
+    out.append(dict(args=['p'] + [i64, 'd'] * 35, nfixed=1, vararg=True, res=['i64']))
     for p in out:
         p['style'] = 'boundary'
     return out
